@@ -20,7 +20,7 @@ from vf.oracle import table as T
 
 MOD = "vf.checks.c07"
 CANDS = [k / 8 for k in range(-160, 161) if k != 0]
-data_seed = st.lists(st.sampled_from(CANDS), min_size=264, max_size=264, unique=True)
+data_seed = st.lists(st.sampled_from(CANDS), min_size=288, max_size=288, unique=True)
 
 _REG = None
 
@@ -36,6 +36,7 @@ def registry():
         _REG.add("Lb", 1 / 64.0, D.length)
         _REG.add("Ta", 64.0, D.time)
         _REG.add("Tb", 1 / 64.0, D.time)
+        _REG.add("Lc", 4096.0, D.length)
     return _REG
 
 
@@ -54,16 +55,21 @@ def registry2():
         _REG2.add("Lb", 1 / 64.0, D.length)
         _REG2.add("Ta", 1 / 4096.0, D.time)
         _REG2.add("Tb", 1 / 64.0, D.time)
+        _REG2.add("Lc", 64.0, D.length)
     return _REG2
 
 
 # (label, exact?, {role: (unit, multiplier applied to the stored numbers)} x 2, registry selector)
 G_ = ("rad", 1.0)
 ASSIGN = [
-    ("dyadic", True, {"A": ("La", 1.0), "B": ("Ta", 1.0), "G": G_, "I": ("1/Lb", 1.0)}, {"A": ("Lb", 4096.0), "B": ("Tb", 4096.0), "G": G_, "I": ("1/La", 4096.0)}, 1),
-    ("dyadic-A-only", True, {"A": ("La", 1.0), "B": ("Ta", 1.0), "G": G_, "I": ("1/Lb", 1.0)}, {"A": ("Lb", 4096.0), "B": ("Ta", 1.0), "G": G_, "I": ("1/Lb", 1.0)}, 1),
-    ("dyadic-second-registry", True, {"A": ("La", 1.0), "B": ("Ta", 1.0), "G": G_, "I": ("1/Lb", 1.0)}, {"A": ("Lb", 262144.0), "B": ("Tb", 1 / 64.0), "G": G_, "I": ("1/La", 262144.0)}, 2),
-    ("ordinary", False, {"A": ("m", 1.0), "B": ("s", 1.0), "G": G_, "I": ("1/cm", 1.0)}, {"A": ("cm", 100.0), "B": ("ms", 1000.0), "G": G_, "I": ("1/m", 100.0)}, 0),
+    ("dyadic", True, {"A": ("La", 1.0), "A2": ("Lc", 1 / 64.0), "B": ("Ta", 1.0), "G": G_, "I": ("1/Lb", 1.0)},
+     {"A": ("Lb", 4096.0), "A2": ("La", 1.0), "B": ("Tb", 4096.0), "G": G_, "I": ("1/La", 4096.0)}, 1),
+    ("dyadic-A-only", True, {"A": ("La", 1.0), "A2": ("Lc", 1 / 64.0), "B": ("Ta", 1.0), "G": G_, "I": ("1/Lb", 1.0)},
+     {"A": ("Lb", 4096.0), "A2": ("Lc", 1 / 64.0), "B": ("Ta", 1.0), "G": G_, "I": ("1/Lb", 1.0)}, 1),
+    ("dyadic-second-registry", True, {"A": ("La", 1.0), "A2": ("Lc", 64.0), "B": ("Ta", 1.0), "G": G_, "I": ("1/Lb", 1.0)},
+     {"A": ("Lb", 262144.0), "A2": ("La", 1.0), "B": ("Tb", 1 / 64.0), "G": G_, "I": ("1/La", 262144.0)}, 2),
+    ("ordinary", False, {"A": ("m", 1.0), "A2": ("km", 1e-3), "B": ("s", 1.0), "G": G_, "I": ("1/cm", 1.0)},
+     {"A": ("cm", 100.0), "A2": ("inch", 1 / 0.0254), "B": ("ms", 1000.0), "G": G_, "I": ("1/m", 100.0)}, 0),
 ]
 
 
@@ -108,8 +114,9 @@ def same_numbers(a, b, exact):
         return bool(np.array_equal(a, b, equal_nan=a.dtype.kind in "fc"))
     fa, fb = a.astype(complex), b.astype(complex)
     with np.errstate(all="ignore"):
-        scale = max(float(np.max(np.abs(fa))) if fa.size else 0.0, float(np.max(np.abs(fb))) if fb.size else 0.0)
-        ok = (np.abs(fa - fb) <= 1e-9 * scale + 1e-300) | (np.isnan(fa) & np.isnan(fb))
+        fin = np.isfinite(fa) & np.isfinite(fb)
+        scale = max(float(np.max(np.abs(fa[fin]))) if fin.any() else 0.0, float(np.max(np.abs(fb[fin]))) if fin.any() else 0.0)
+        ok = (np.abs(fa - fb) <= 1e-9 * scale + 1e-300) | (np.isnan(fa) & np.isnan(fb)) | (fa == fb)
     return bool(np.all(ok))
 
 
@@ -212,7 +219,7 @@ def run(ctx):
 
 def replay(ctx, data):
     d = data["detail"]
-    vals = d["case"] if isinstance(d, dict) and "case" in d else CANDS[:264]
+    vals = d["case"] if isinstance(d, dict) and "case" in d else CANDS[:288]
     ex = d.get("detail", {}).get("expr") if isinstance(d, dict) else None
     tl = [t for t in C.all_templates() if t[1] == ex] or None
     for key, det in judge_data(vals, ctx, tl):
